@@ -1,0 +1,43 @@
+//go:build verif
+
+// Machine-checked contracts for the code that package clientgen EMITS (client helper methods are constant
+// templates up to the receiver name; RPC methods are checked on the extraction schema, labelled bounded).
+
+package clientgen
+
+// Codec choice of the client (C01/C10): JSON -> custom marshaler or protojson; x-protobuf -> binary; else protojson.
+//@ emitted func (c *noteServiceClient) marshalRequest(req proto.Message, contentType string) (b []byte, err error)
+//@   ensures one_encoder: (count("MarshalJSON") - old(count("MarshalJSON"))) + (count("protojson.Marshal") - old(count("protojson.Marshal"))) + (count("proto.Marshal") - old(count("proto.Marshal"))) == 1
+//@   at-call proto.Marshal requires binary_only: contentType == "application/x-protobuf"
+//@   at-call MarshalJSON requires json_only: contentType == "application/json"
+//@   at-call protojson.Marshal requires not_binary: contentType != "application/x-protobuf"
+
+//@ emitted func (c *noteServiceClient) unmarshalResponse(body []byte, msg proto.Message, contentType string) (err error)
+//@   ensures empty: len(body) == 0 ==> err == nil && count("UnmarshalJSON") == old(count("UnmarshalJSON")) && count("protojson.Unmarshal") == old(count("protojson.Unmarshal")) && count("proto.Unmarshal") == old(count("proto.Unmarshal"))
+//@   ensures one_decoder: len(body) > 0 ==> (count("UnmarshalJSON") - old(count("UnmarshalJSON"))) + (count("protojson.Unmarshal") - old(count("protojson.Unmarshal"))) + (count("proto.Unmarshal") - old(count("proto.Unmarshal"))) == 1
+//@   at-call proto.Unmarshal requires binary_only: contentType == "application/x-protobuf" && arg0 == body
+//@   at-call UnmarshalJSON requires json_only: contentType == "application/json" && arg0 == body
+//@   at-call protojson.Unmarshal requires not_binary: contentType != "application/x-protobuf" && arg0 == body
+
+// Error mapping of the client (C10): 400 and parseable -> *ValidationError; else parseable as Error -> *Error; else text with status and body.
+//@ emitted func (c *noteServiceClient) handleErrorResponse(statusCode int, body []byte, contentType string) (err error)
+//@   ensures always_an_error: !isNil(err)
+//@   ensures validation_only_for_400: isType(err, *sebufhttp.ValidationError) ==> statusCode == 400
+//@   ensures fallback_mentions_status: !isType(err, *sebufhttp.ValidationError) && !isType(err, *sebufhttp.Error) ==> contains(errmsg(err), strOfInt(statusCode))
+//@   at-call unmarshalResponse requires same_body: arg0 == body && arg2 == contentType
+
+// One RPC method of the extraction schema (GET with path variable and query parameters).
+//@ emitted func (c *noteServiceClient) GetNote(ctx context.Context, req *GetNoteRequest, opts any) (res *Note, err error)
+//@   requires req != nil && c.httpClient != nil
+//@   at-call Do requires content_type_sent: count("Set:Content-Type") > old(count("Set:Content-Type"))
+//@   at-call NewRequestWithContext requires verb: arg1 == "GET"
+//@   at-call unmarshalResponse requires only_on_success: count("Do") > old(count("Do")) && lastErrNil("Do") && lastErrNil("ReadAll")
+//@   at-call handleErrorResponse requires only_on_http_error: count("Do") > old(count("Do")) && lastErrNil("Do")
+//@   ensures err == nil ==> res != nil
+
+//@ emitted func (c *noteServiceClient) UpdateNote(ctx context.Context, req *UpdateNoteRequest, opts any) (res *Note, err error)
+//@   requires req != nil && c.httpClient != nil
+//@   at-call Do requires content_type_sent: count("Set:Content-Type") > old(count("Set:Content-Type"))
+//@   at-call NewRequestWithContext requires verb: arg1 == "PUT"
+//@   at-call NewRequestWithContext requires body_marshalled: count("marshalRequest") > old(count("marshalRequest")) && lastErrNil("marshalRequest")
+//@   ensures err == nil ==> res != nil
